@@ -239,8 +239,8 @@ def script_from_trace(rec):
     """A steering script that re-imposes the order actually observed in a recorded trace (used for replay files:
     the order of a failing run, incl. 'the reader came back before the Write returned', is forced again)."""
     sc = copy.deepcopy(rec["script"])
-    if sc.get("shared"):
-        return sc
+    if sc.get("shared") or any(st.get("a") == "Stress" for st in sc.get("steps", [])):
+        return sc   # these scenarios are their own replay (the window is found by repetition, not by a forced order)
     steps = []
     auto_fail = False
     for e in rec["trace"]:
